@@ -115,7 +115,18 @@ def _build_trie(I, a, k):
     return t
 
 
+def _build_string_matcher(I, a, k):
+    """a StringMatcher (trie strategy, simple tokenizer) initialised by the REAL init() code with the given phrases"""
+    cls = I.repo.find('Python/libraries/recognizers-text/recognizers_text/matcher/string_matcher.py::StringMatcher')
+    m = I.instantiate(cls, [], {})
+    ini = I.repo.find_method(cls, 'init')
+    from .values import FuncVal
+    I.call_func(FuncVal(ini, m, ini.cls), [list(a[0])], {})
+    return m
+
+
 NATIVE = {
+    'build_string_matcher': _build_string_matcher,
     'build_trie': _build_trie,
     'env_matches': _env_matches,
     'fill': _ghost_fill,
